@@ -90,7 +90,7 @@ func (fr *Frame) execNext(ins *ssa.Next) {
 		idx := fr.havocVal(tup.At(1).Type(), fr.vname(ins)+"_i")
 		r := fr.havocVal(tup.At(2).Type(), fr.vname(ins)+"_r")
 		s := ri.strVal
-		vc.assume(tImp(ok, Term{fmt.Sprintf("(and (<= 0 %s) (< %s (str.len %s)) (<= 0 %s) (<= %s 1114111) (=> (< (str.at %s %s) 128) (= %s (str.at %s %s))) (=> (< %s 128) (= %s (str.at %s %s))))",
+		vc.assume(tImp(ok, Term{fmt.Sprintf("(and (<= 0 %s) (< %s (s_len %s)) (<= 0 %s) (<= %s 1114111) (=> (< (s_at %s %s) 128) (= %s (s_at %s %s))) (=> (< %s 128) (= %s (s_at %s %s))))",
 			idx.S, idx.S, s.S, r.S, r.S, s.S, idx.S, r.S, s.S, idx.S, r.S, r.S, s.S, idx.S), SBool}))
 		vc.note("range over string: iteration order/coverage not modelled (each step yields some valid index)")
 		fr.tuples[ins] = []Term{ok, idx, r}
